@@ -591,8 +591,103 @@ func importName(f *ast.File, name string) string {
 	return ""
 }
 
+// declaredNames lists the identifiers a function declares (parameters, results,
+// receiver, := / var / range variables, labels), scoping ignored.
+func declaredNames(fd *ast.FuncDecl) map[string]bool {
+	out := map[string]bool{}
+	addFields := func(fl *ast.FieldList) {
+		if fl == nil {
+			return
+		}
+		for _, f := range fl.List {
+			for _, n := range f.Names {
+				out[n.Name] = true
+			}
+		}
+	}
+	addFields(fd.Recv)
+	addFields(fd.Type.Params)
+	addFields(fd.Type.Results)
+	ast.Inspect(fd.Body, func(n ast.Node) bool {
+		switch x := n.(type) {
+		case *ast.AssignStmt:
+			if x.Tok == token.DEFINE {
+				for _, l := range x.Lhs {
+					if id, ok := l.(*ast.Ident); ok {
+						out[id.Name] = true
+					}
+				}
+			}
+		case *ast.ValueSpec:
+			for _, nm := range x.Names {
+				out[nm.Name] = true
+			}
+		case *ast.RangeStmt:
+			if x.Tok == token.DEFINE {
+				for _, l := range []ast.Expr{x.Key, x.Value} {
+					if id, ok := l.(*ast.Ident); ok {
+						out[id.Name] = true
+					}
+				}
+			}
+		case *ast.FuncLit:
+			addFields(x.Type.Params)
+			addFields(x.Type.Results)
+		case *ast.TypeSwitchStmt:
+			if as, ok := x.Assign.(*ast.AssignStmt); ok {
+				for _, l := range as.Lhs {
+					if id, ok := l.(*ast.Ident); ok {
+						out[id.Name] = true
+					}
+				}
+			}
+		}
+		return true
+	})
+	return out
+}
+
+// captures reports whether an identifier the helper takes from the package scope
+// would be captured by a declaration of the caller once the body is moved there.
+func captures(h *helper, caller *ast.FuncDecl) bool {
+	own := declaredNames(h.decl)
+	theirs := declaredNames(caller)
+	bad := false
+	sel := map[*ast.Ident]bool{}
+	ast.Inspect(h.decl.Body, func(n ast.Node) bool {
+		if se, ok := n.(*ast.SelectorExpr); ok {
+			sel[se.Sel] = true
+		}
+		return true
+	})
+	ast.Inspect(h.decl.Body, func(n ast.Node) bool {
+		if id, ok := n.(*ast.Ident); ok && !sel[id] && !own[id.Name] && theirs[id.Name] {
+			bad = true
+		}
+		return true
+	})
+	// result types and parameter types are copied into the caller as well
+	for _, fl := range []*ast.FieldList{h.decl.Type.Params, h.decl.Type.Results, h.decl.Recv} {
+		if fl == nil {
+			continue
+		}
+		for _, f := range fl.List {
+			ast.Inspect(f.Type, func(n ast.Node) bool {
+				if id, ok := n.(*ast.Ident); ok && theirs[id.Name] {
+					bad = true
+				}
+				return true
+			})
+		}
+	}
+	return bad
+}
+
 // inlineText builds the replacement of statement s (which contains the call c to h).
 func inlineText(h *helper, f *nfile, caller *ast.FuncDecl, s ast.Stmt, c *ast.CallExpr) (string, bool) {
+	if captures(h, caller) {
+		return "", false
+	}
 	hf := h.file
 	inlCounter++
 	id := fmt.Sprintf("__inl%d", inlCounter)
